@@ -77,7 +77,15 @@ CHECKER = ("fun k => match k with (objs, cs, st0, ops, seen) => "
            "(trace init st0 ops) seen end")
 CASE_TYPE = "list expr * list (expr * sense) * bstore * list op * list (list bool * pyobs)"
 SENSE = {"<=": "Le", ">=": "Ge", "==": "Eq"}
-PROBE = {"x": 0.75, "y": 1.25}
+PROBE = {"x": 0.75, "y": 1.25, "a": 0.5, "z": -0.25}
+FEAS = {"x": 1.0, "y": 1.5, "a": 0.0, "z": 0.0}      # satisfies every candidate constraint: the scripted answer must not trigger the SLSQP retry
+
+
+def feasible_answer(P):
+    def answer(call):
+        xs = np.array([FEAS[v.name] for v in P.variables], dtype=float)
+        return stubs.mres(x=xs, fun=float(call["fun"](xs)))
+    return answer
 
 
 class World:
@@ -102,15 +110,21 @@ class World:
             self.x = Variable("x")
             self.y = Variable("y")
         x, y = self.x, self.y
-        self.objs = [x + 2 * y, x ** 2 + y ** 2]
-        self.cons = [x + y >= 1, x ** 2 + y <= 3, x >= 0.5, y <= 2]
+        # two more variables, one sorting before x and one after y: objectives over DIFFERENT variable sets of the same size
+        # ([a, y] -> [y, z] shifts y's column), and a constraint that introduces a variable
+        self.a, self.z = Variable("a"), Variable("z")
+        a, z = self.a, self.z
+        self.objs = [x + 2 * y, x ** 2 + y ** 2, (a - 3) ** 2 + y ** 2, y ** 2 + (z + 2) ** 2, 2 * a + y]
+        self.cons = [x + y >= 1, x ** 2 + y <= 3, x >= 0.5, y <= 2, z + x >= 0.125, y >= 1.125]
         self.ser = ser.Ser()
         self.obj_terms = [self.ser.expr(o) for o in self.objs]
         self.con_terms = [f"({self.ser.expr(c.expr)}, {SENSE[c.sense]})" for c in self.cons]
 
 
-LETTERS = ["min0", "min1", "max0", "max1", "subj0", "subj1", "subjL", "ubx", "lby", "ubxN", "uby", "read",
+LETTERS = ["min0", "min1", "max0", "max1", "min2", "min3", "max3", "min4", "subj0", "subj1", "subjL", "subjLz", "subj5", "subjBad",
+           "ubx", "lby", "ubxN", "uby", "read",
            "s:auto", "s:SLSQP", "s:trust-constr", "s:L-BFGS-B", "s:linprog", "s:highs-ds"]
+NO_MODEL_OP = {"subjBad"}        # rejected as a whole: the problem must be exactly as before (no model operation)
 
 
 def op_term(w: World, L: str, toggles):
@@ -124,6 +138,10 @@ def op_term(w: World, L: str, toggles):
         return f"(OSubj {w.con_terms[1]})"
     if L == "subjL":
         return f"(OSubjList [{w.con_terms[2]}; {w.con_terms[3]}])"
+    if L == "subjLz":
+        return f"(OSubjList [{w.con_terms[4]}; {w.con_terms[3]}])"      # the NEW variable comes first, a known one last
+    if L == "subj5":
+        return f"(OSubj {w.con_terms[5]})"
     if L == "ubx":
         return f'(OSetUb "x" (Some {ser.q(toggles["ubx"])}))'
     if L == "lby":
@@ -152,6 +170,7 @@ class Runner:
         self.w = World(variant)
         self.P = Problem()
         self.nub = self.nlb = self.nuby = 0
+        self.bad_list = None
 
     def toggles(self):
         return {"ubx": self.UB[self.nub % 2], "lby": self.LB[self.nlb % 2], "uby": self.UBY[self.nuby % 2]}
@@ -169,6 +188,19 @@ class Runner:
             P.subject_to(w.cons[1])
         elif L == "subjL":
             P.subject_to([w.cons[2], w.cons[3]])
+        elif L == "subjLz":
+            P.subject_to([w.cons[4], w.cons[3]])
+        elif L == "subj5":
+            P.subject_to(w.cons[5])
+        elif L == "subjBad":
+            from optyx.core.errors import ConstraintError
+            n0 = len(P.constraints)
+            try:
+                P.subject_to([w.cons[0], "not a constraint"])
+                self.bad_list = "accepted"
+            except (ConstraintError, TypeError, ValueError):
+                if len(P.constraints) != n0:
+                    self.bad_list = f"rejected, but {len(P.constraints) - n0} constraint(s) of the list were kept"
         elif L == "ubx":
             w.x.ub = t["ubx"]; self.nub += 1
         elif L == "lby":
@@ -223,9 +255,12 @@ def run_sequence(seq, variant=0):
     pyseen = []
     op_terms = []
     for L in seq:
+        if L in NO_MODEL_OP:
+            R.edit(L)
+            continue
         op_terms.append(op_term(w, L, R.toggles()))
         po = "PNone"
-        feasible = lambda call: stubs.mres(x=np.ones(len(call['x0'])), fun=float(call['fun'](np.ones(len(call['x0'])))))
+        feasible = feasible_answer(P)
         with stubs.Seams(minimize_script=[feasible, feasible]) as S, warnings.catch_warnings():
             warnings.simplefilter("ignore")
             if L == "read":
@@ -281,6 +316,8 @@ def run_sequence(seq, variant=0):
         seen.append(f"({ser.lst('true' if b else 'false' for b in fl)}, {po})")
         pyseen.append({"letter": L, "flags": fl, "obs": po[:200]})
     case = f"({ser.lst(w.obj_terms)}, {ser.lst(w.con_terms)}, {World.ST0[variant]}, {ser.lst(op_terms)}, {ser.lst(seen)})"
+    if R.bad_list:
+        pyseen.append({"letter": "subjBad", "problem": R.bad_list})
     return case, pyseen
 
 
@@ -288,18 +325,19 @@ def seam_vs_fresh(seq, variant=0):
     """Concrete history on which a solve of the live problem hands SciPy something else than a freshly built problem
     stating the same model would (stubs at the seams: no solver involved)."""
     R = Runner(variant)
-    feasible = lambda call: stubs.mres(x=np.ones(len(call['x0'])), fun=float(call['fun'](np.ones(len(call['x0'])))))
     for k, L in enumerate(seq):
         with warnings.catch_warnings():
             warnings.simplefilter("ignore")
             try:
                 if R.edit(L):
                     continue
-                with stubs.Seams(minimize_script=[feasible, feasible]) as S:
+                fa = feasible_answer(R.P)
+                with stubs.Seams(minimize_script=[fa, fa]) as S:
                     R.P.solve(method=L[2:])
                 live = seam_snapshot(S, R.P, R.w)
                 F = R.fresh()
-                with stubs.Seams(minimize_script=[feasible, feasible]) as S2:
+                fb = feasible_answer(F)
+                with stubs.Seams(minimize_script=[fb, fb]) as S2:
                     F.solve(method=L[2:])
                 fresh = seam_snapshot(S2, F, R.w)
             except Exception:
@@ -352,9 +390,15 @@ def run(rep: vk.Report):
     for _ in range(n_long):
         seqs.append(tuple(rng.choice(LETTERS) for _ in range(rng.randint(4, 8))))
     cases = Cases("histories", IMPORTS, CASE_TYPE, CHECKER, defs=DEFS)
+    bad_reports = 0
     for k, s in enumerate(seqs):
         variant = k % 3
         case, pyseen = run_sequence(s, variant)
+        for st_ in pyseen:
+            if st_.get("letter") == "subjBad" and bad_reports < 3:
+                bad_reports += 1
+                rep.violation({"kind": "atomicity", "obligation": "a rejected subject_to(list) leaves the problem as it was",
+                               "witness": {"sequence": list(s), "world": variant, "problem": st_["problem"]}}, concrete=True)
         cases.add(case, {"sequence": list(s), "world": variant, "steps": pyseen}, kinds=set(s) | {f"len{len(s)}", f"world{variant}"})
     fails = cases.run(shard=250)
     # A broken tie is not yet a violation: look, among the failing histories (shortest first), for one on which the live problem
